@@ -52,3 +52,12 @@ Example C02_translated_parse_bytes_runs :
   PCD.Gen.SrcLines.ParseBytes.parse_bytes 144 [144; 1; 144; 2; 100; 3; 9; 0; 144; 255; 144; 255; 144; 255; 100; 255]
   = OK [(100, 66051, 3, 0, 6); (9, 0, 1, 6, 8); (100, -1, 4, 8, 16)].
 Proof. vm_compute. reflexivity. Qed.
+
+(* and so is the operand resolution: the elif chain of to_arg (jump scaling by interpreter version, relative jumps from
+   the offset of the NEXT instruction, name / local / cell-then-free / constant tables, NoArg below HAVE_ARGUMENT),
+   re-translated on every run (Gen/SrcToArg.v), is the model's to_arg for all inputs and table states *)
+From PCD Require Gen.SrcToArg Proofs.SrcToArgTie.
+Theorem C02_to_arg_is_the_source : forall {C} (keq : C -> C -> bool) c opcode a next_offset freevars st,
+  PCD.Gen.SrcToArg.to_arg keq c opcode a next_offset freevars st = to_arg keq c opcode a next_offset freevars st.
+Proof. exact @SrcToArgTie.to_arg_tie. Qed.
+Print Assumptions C02_to_arg_is_the_source.
